@@ -7,7 +7,7 @@ INFO = {
             "OneOf/NoneOf/Check/ExprValidator x predicate sets x all 256 byte values (all 65536 two-byte values in thorough) in "
             "both directions; Enum/FlagsEnum/Mapping instances (duplicates, zero flag, multi-bit flag, IntEnum/IntFlag merge, "
             "huge values over VarInt) x all 256 byte values x every label spelling; Error under every composition (depth <=2 quick, "
-            "<=3 thorough) of wrappers that execute their child. non-trivial = the implementation's accept/reject decision (and "
+            "<=3 thorough) of wrappers that execute their child; validators and Check also through the instance compile() returns (when it accepts). non-trivial = the implementation's accept/reject decision (and "
             "value/bytes when accepted) was compared with the predicate; distinct = distinct (instance, direction, value)",
     "bounds": {"quick": {"two_byte_domains": "boundary", "error_depth": 2}, "thorough": {"two_byte_domains": "all 65536", "error_depth": 3}},
     "trusted_base": ["the predicates and tables as written in this module", "LEB128 reference (8 lines)"],
@@ -231,6 +231,17 @@ PRED_SETS = {
 }
 
 
+def compiled_twin(d):
+    """the instance compile() returns, or None when it refuses or fails (then nothing is claimed)"""
+    try:
+        with watchdog(10):
+            return d.compile()
+    except Hang:
+        return None
+    except Exception:
+        return None
+
+
 def run_validators(sub, tier, r):
     import construct as C
     if sub == "Byte":
@@ -255,6 +266,7 @@ def run_validators(sub, tier, r):
             variants = variants[:3] + variants[4:]
         for vname, mk, pred in variants:
             d = mk()
+            dc = compiled_twin(d)
             for data, val in domain:
                 r.states += 1
                 want = pred(val)
@@ -262,7 +274,11 @@ def run_validators(sub, tier, r):
                 gb = outcome(lambda: d.build(val))
                 r.case(nontrivial=True, outcome="admit" if want else "refuse", transitions=2, validated=2)
                 case = {"t": "validator", "sub": sub, "set": sname, "variant": vname, "value": val}
-                for op, g, okval in (("parse", gp, val), ("build", gb, data)):
+                ops = [("parse", gp, val), ("build", gb, data)]
+                if dc is not None:
+                    # the constraint binds the generated code as well: whatever compile() accepts must admit exactly the same values
+                    ops += [("compiled-parse", outcome(lambda: dc.parse(data)), val), ("compiled-build", outcome(lambda: dc.build(val)), data)]
+                for op, g, okval in ops:
                     if g[0] in ("foreign", "hang"):
                         V(r, "validator/%s-%s" % (op, g[0]), case, "%s(%s,%s) %s %r: %r" % (vname, sub, sname, op, val, g))
                     elif want and g != ("ok", okval):
@@ -387,6 +403,7 @@ def run_check_(tier, r):
     ]
     for pname, mkp, pred in preds:
         d = C.Struct("a" / C.Byte, C.Check(mkp()), "z" / C.Byte)
+        dc = compiled_twin(d)
         for a in range(256):
             for k in (7, 200):
                 r.states += 1
@@ -395,7 +412,10 @@ def run_check_(tier, r):
                 gb = outcome(lambda: d.build(dict(a=a, z=9), k=k))
                 r.case(nontrivial=True, outcome="admit" if want else "refuse", transitions=2, validated=2)
                 case = {"t": "check", "pred": pname, "a": a, "k": k}
-                for op, g in (("parse", gp), ("build", gb)):
+                ops = [("parse", gp), ("build", gb)]
+                if dc is not None:
+                    ops += [("compiled-parse", outcome(lambda: dc.parse(bytes([a, 9]), k=k))), ("compiled-build", outcome(lambda: dc.build(dict(a=a, z=9), k=k)))]
+                for op, g in ops:
                     if g[0] in ("foreign", "hang"):
                         V(r, "check/%s-%s" % (op, g[0]), case, "Check(%s) %s a=%d: %r" % (pname, op, a, g))
                     elif want and g[0] != "ok":
